@@ -321,6 +321,35 @@ def run(ctx, impl_only=False):
             elif d:
                 ctx.violate(case, 'the same instant in another timezone is reported: %s' % str(d)[:120])
             ctx.count('normaliser:same_instant')
+    # datetimes where DeepDiff compares by digest (members of sets and frozensets, tuples in sets, items under ignore_order):
+    # the digest must read a naive datetime the way the comparison of two leaves does -- in the configured default timezone
+    NAIVE = [datetime.datetime(2020, 2, 29, 23, 59, 59), datetime.datetime(2024, 5, 1, 0, 15), datetime.datetime(2023, 12, 31, 22, 0, 0, 5)]
+    for tz in (TZ5, TZM3, UTC, datetime.timezone(datetime.timedelta(hours=5, minutes=30))):
+        for i in range(max(6, n // 10)):
+            k = ctx.rng.randint(1, 3)
+            mem = ctx.rng.sample(NAIVE, k) + ctx.rng.sample([1, 'a', None, 2.5], ctx.rng.randint(0, 2))
+            def alt(v):
+                if isinstance(v, datetime.datetime) and ctx.rng.random() < 0.8:
+                    w = v.replace(tzinfo=tz)
+                    return w.astimezone(ctx.rng.choice([UTC, TZ5, TZM3])) if ctx.rng.random() < 0.5 else w
+                return v
+            mem2 = [alt(v) for v in mem]
+            if mem2 == mem and all(a.tzinfo == b.tzinfo for a, b in zip(mem, mem2) if isinstance(a, datetime.datetime)):
+                continue
+            shapes = [(set(mem), set(mem2), {}), (frozenset(mem), frozenset(mem2), {}), ({'s': set(mem)}, {'s': set(mem2)}, {}),
+                      ({(v, 1) for v in mem}, {(v, 1) for v in mem2}, {}), ([set(mem), 1], [set(mem2), 1], {}),
+                      (list(mem), list(reversed(mem2)), {'ignore_order': True}), ([(v, 'x') for v in mem], [(v, 'x') for v in reversed(mem2)], {'ignore_order': True})]
+            for x, y, extra in shapes:
+                for kw in (dict(default_timezone=tz), dict(default_timezone=tz, truncate_datetime='minute')):
+                    kw = dict(kw, **extra)
+                    ctx.evaluations += 1
+                    d, e = safe_diff(x, y, **kw)
+                    case = {'clause': 'normaliser', 'option': 'naive datetime vs the same instant stamped, compared by digest ' + repr(sorted(kw)), 'x': repr(x), 'y': repr(y), 'zip': False, 'tz': repr(tz)}
+                    ctx.count('normaliser:default_timezone_hashed')
+                    if e is not None:
+                        ctx.violate(case, 'DeepDiff raised %s' % type(e).__name__)
+                    elif d:
+                        ctx.violate(case, 'a naive datetime and the same wall time stamped with default_timezone are reported as different where items are compared by digest: %s' % str(d)[:150])
     # ---- (2) plain-empty => empty under options and pairs; (3) no option makes DeepDiff raise
     opt_names = list(OPTIONS)
     combos = [(a,) for a in opt_names] + list(itertools.combinations(opt_names, 2))
